@@ -451,7 +451,12 @@ func withTimes(t *rapid.T, v any) any {
 		}
 	case string:
 		if rapid.IntRange(0, 5).Draw(t, "astime") == 0 {
-			return time.Unix(rapid.Int64Range(-1e9, 4e9).Draw(t, "sec"), int64(rapid.IntRange(0, 999999999).Draw(t, "ns"))).UTC()
+			tm := time.Unix(rapid.Int64Range(-1e9, 4e9).Draw(t, "sec"), int64(rapid.IntRange(0, 999999999).Draw(t, "ns"))).UTC()
+			if off := rapid.SampledFrom([]int{0, 0, 3600, -5 * 3600, 19800, -34200}).Draw(t, "zone"); off != 0 {
+				// a time keeps its location through the conversions ("preserve the value exactly")
+				tm = tm.In(time.FixedZone("", off))
+			}
+			return tm
 		}
 	}
 	return v
